@@ -13,6 +13,7 @@ package main
 //   parservar <pkg> <receiver…> <script> <datahex>   UnmarshalText / UnmarshalJSON under a replaced Parser variable
 //   constraint.info <kind>               IsFloat IsSigned Min Max SmallestNonzero SizeBytes SizeBits
 //   errmsg <pkg> <funchex> <inputhex> nil|l:<len>:<max>|t:<hex>   Error() and Unwrap() of the package's parse-error type -> hex 1
+//   errmsg.digit <byte>                 uu.InvalidDigitError(byte).Error()  -> hex
 //   errmsg.real <pkg> <funchex> <inputhex> <max>   the error UnmarshalText returns for an input longer than the limit -> hex
 //
 // script (formatter): `d` = the variable keeps DefaultFormatter; `s:<outhex>:<mode>:<tag>` = a replacement that appends
@@ -255,6 +256,11 @@ func execExtra(c *Ctx, line string, f []string) string {
 			return "bad-op"
 		}
 		return xErrMsg(f[1], string(mustHex(f[2])), mustHex(f[3]), f[4])
+	case "errmsg.digit":
+		if len(f) != 2 {
+			return "bad-op"
+		}
+		return hx([]byte(uu.InvalidDigitError(byte(atoi(f[1]))).Error()))
 	case "errmsg.real":
 		if len(f) != 5 {
 			return "bad-op"
@@ -609,6 +615,9 @@ func propEXTRA(c *Ctx) {
 // real too-long errors of UnmarshalText under several limits; a direct oracle checks that the real message does not
 // contain the input and is the same for two different inputs of one length
 func xErrMsgs(c *Ctx) {
+	for b := 0; b < 256; b++ { // uu.InvalidDigitError: every byte value
+		c.Op(fmt.Sprintf("errmsg.digit %d", b))
+	}
 	pkgs := []string{"date", "sem", "roman", "uu", "size"}
 	inputs := [][]byte{nil, []byte("x"), []byte("2024-02-30"), []byte("a\"b\\c"), []byte("\x00\x01\a\b\f\n\r\t\v\x1f\x7f"), []byte(" ~!'`"), []byte("1.2.3-rc+b")}
 	n := xN(c, 40, 2000)
